@@ -77,7 +77,6 @@ Proof. induction l as [|y t IH]; simpl; [split; [intros _ x []|auto]|].
 (* ---- the DAG ---------------------------------------------------------------- *)
 Section Dag.
 Variable c : circ.
-Let N := length c.
 Definition tq (q n : nat) : bool := touches q (opat c n).
 
 Lemma tq_lt q n : tq q n = true -> n < length c.
